@@ -411,6 +411,12 @@ func main() {
 	// ---- newValidationErrorFromOzzoValidationErrors ----
 	match(`if len\(oes\) == 0 \{ return &validationError\{ ?reason: oes\.Error\(\),? ?\} \} ; params := maps\.Keys\(oes\) ; slices\.Sort\(params\) ; param := params\[0\] ; veo := &validationError\{ ?reason: oes\[param\]\.Error\(\),? ?\} ; veo\.RecordField\(param, nil, nil\) ; return veo`,
 		bodyText("newValidationErrorFromOzzoValidationErrors"), "newValidationErrorFromOzzoValidationErrors")
+	// newValidationError: the fallback for errors that are neither validation errors nor ozzo errors keeps the whole text of
+	// a plain error (GetCommonErrorReason, not GetErrorReason which cuts at the first colon)
+	if t := bodyText("newValidationError"); !strings.HasSuffix(t, `; reason, subErr := commonerrors.GetCommonErrorReason(err) ; if subErr != nil { reason = err.Error() } ; return &validationError{ reason: reason, }`) ||
+		!strings.HasPrefix(t, `if err == nil { return nil } ; var vErr *validationError ; if errors.As(err, &vErr) { return vErr } ; var ve IValidationError ; if errors.As(err, &ve) { return newValidationErrorFromIValidationError(ve) } ; var oe validation.Error ; if errors.As(err, &oe) { return newValidationErrorFromOzzoValidation(oe) } ; var oes validation.Errors ; if errors.As(err, &oes) { return newValidationErrorFromOzzoValidationErrors(oes) } ;`) {
+		die("newValidationError: %s", t)
+	}
 	if t := bodyText("validationError.Unwrap"); t != "return commonerrors.ErrInvalid" {
 		die("validationError.Unwrap: %s", t)
 	}
